@@ -525,8 +525,14 @@ func LoadContracts(repo string, pkgDirs map[string]string, externDir string) (ma
 	add := func(cs []*Contract) error {
 		for _, c := range cs {
 			key := c.Key()
-			if _, dup := out[key]; dup {
-				return fmt.Errorf("%s:%d: duplicate contract for %s", c.File, c.Line, key)
+			if prev, dup := out[key]; dup {
+				// identical pred/global macros may be repeated across files of one package;
+				// anything else is reported (check treats it as a machinery error)
+				if c.IsPred && prev.IsPred && prev.PredBody != nil && c.PredBody != nil && prev.PredBody.Text == c.PredBody.Text {
+					continue
+				}
+				contractWarnings = append(contractWarnings, fmt.Sprintf("%s:%d: duplicate contract for %s (first at %s:%d kept)", c.File, c.Line, key, prev.File, prev.Line))
+				continue
 			}
 			out[key] = c
 		}
